@@ -5,8 +5,26 @@ use rssl_ir as ir;
 use rssl_text::Located;
 use rssl_text::SourceLocation;
 
+/// Find the location of the name of an already processed pipeline with the given name
+fn find_pipeline_location(module: &ir::Module, name: &str) -> Option<SourceLocation> {
+    for pipeline in &module.pipelines {
+        if pipeline.name.node == name {
+            return Some(pipeline.name.location);
+        }
+    }
+    None
+}
+
 /// Process an AST pipeline definition
 pub fn parse_pipeline(def: &ast::PipelineDefinition, context: &mut Context) -> TyperResult<()> {
+    // Pipelines are selected by name so each name may only be defined once
+    if let Some(previous_location) = find_pipeline_location(&context.module, &def.name.node) {
+        return Err(TyperError::PipelineAlreadyDefined(
+            def.name.clone(),
+            previous_location,
+        ));
+    }
+
     let mut pipeline = ir::PipelineDefinition {
         name: def.name.clone(),
         default_bind_group_index: 0,
